@@ -487,20 +487,32 @@ def part_prefix_celsius(ctx):
         x = ses.scalar("x")
         zx = ses.z(x)
         sx = lift.SymFloat(zx, x)
-        ses.run = lift.Run([])
-        try:
-            k = CE.to_kelvin(CE.Celsius(sx))
-            back = CE.from_kelvin(k).value
-            k2 = CE.to_kelvin(CE.from_kelvin(sx))
-        finally:
-            ses.run = None
         absz = lambda t: z3.If(t >= 0, t, -t)
         scale = absz(zx) + OFF
-        for nm, t, want in (("to_kelvin(C(x)) == x + 273.15", k.t, zx + OFF), ("from_kelvin(to_kelvin(C(x))) == x", back.t, zx),
-                            ("to_kelvin(from_kelvin(x)) == x", k2.t, zx)):
-            r, m = ses.check([absz(t - want) > eps * scale])
-            xv = float(model_value(m, zx)) if r == "sat" else 20.0
-            _verdict(ctx, "celsius:" + nm, r, m, "C07:celsius:" + nm.split(" ")[0], nm + " fails over the reals", REPLAY_CELSIUS.format(x=xv))
+        # every path of the three compositions (a changed implementation may branch, e.g. clamp at absolute zero)
+        for nm, fnc, want in (("to_kelvin(C(x)) == x + 273.15", lambda: CE.to_kelvin(CE.Celsius(sx)), zx + OFF),
+                              ("from_kelvin(to_kelvin(C(x))) == x", lambda: CE.from_kelvin(CE.to_kelvin(CE.Celsius(sx))).value, zx),
+                              ("to_kelvin(from_kelvin(x)) == x", lambda: CE.to_kelvin(CE.from_kelvin(sx)), zx)):
+            try:
+                ps = explore(fnc)
+            except (LiftUnsupported, Unencodable) as e:
+                ctx.ob("celsius:" + nm, "unencoded", str(e))
+                continue
+            worst, wm = "unsat", None
+            for p_ in ps:
+                if p_.kind != "ret":
+                    rr, mm = ses.check(p_.pc)
+                    if rr == "sat":
+                        worst, wm = "sat", mm          # a temperature is refused
+                    continue
+                t = lift.SymFloat.lift(p_.value)
+                rr, mm = ses.check(p_.pc + [absz(t - want) > eps * scale])
+                if rr == "sat":
+                    worst, wm = "sat", mm
+                elif rr != "unsat" and worst != "sat":
+                    worst = rr
+            xv = float(model_value(wm, zx)) if worst == "sat" else 20.0
+            _verdict(ctx, "celsius:" + nm, worst, wm, "C07:celsius:" + nm.split(" ")[0], nm + " fails over the reals", REPLAY_CELSIUS.format(x=xv))
         # quantity forms
         try:
             ps = explore(lambda: CE.to_kelvin_quantity(CE.Celsius(x)))
@@ -590,6 +602,43 @@ def fp_roundtrip(ctx):
         ctx.ob("celsius:double round trip (QF_FP)", "inconclusive", "z3 FP query did not finish within the time limit; only the real-number statement is claimed")
 
 
+FOREIGN_SRC = r'''
+from sympy.physics import units
+from symplyphysics import Quantity, convert_to
+def foreign_cases():
+    """units whose base dimension lies outside the seven SI ones + angle (information: bit, byte): the lifted exponent vectors cannot
+    represent them, so a finite list is executed concretely.  (label, call, expected number or None for a refusal)"""
+    return [("2 byte/s -> hertz", lambda: convert_to(Quantity(2 * units.byte / units.second), units.hertz), None),
+            ("5 byte -> 1", lambda: convert_to(Quantity(5 * units.byte), 1), None),
+            ("7 Hz -> byte/s", lambda: convert_to(Quantity(7 * units.hertz), units.byte / units.second), None),
+            ("4 m -> byte", lambda: convert_to(Quantity(4 * units.meter), units.byte), None),
+            ("3 byte -> bit", lambda: convert_to(Quantity(3 * units.byte), units.bit), 24),
+            ("1 kibibyte -> byte", lambda: convert_to(Quantity(1 * units.kibibyte), units.byte), 1024),
+            ("16 bit/s -> byte/s", lambda: convert_to(Quantity(16 * units.bit / units.second), units.byte / units.second), 2)]
+def foreign_bad():
+    bad = []
+    for label, call, want in foreign_cases():
+        try:
+            got = call()
+            if want is None or abs(float(got) - want) > 1e-9 * abs(want):
+                bad.append(f"{label}: returned {got}" + (" (inequivalent dimensions: must be refused)" if want is None else f", expected {want}"))
+        except Exception as e:
+            if want is not None:
+                bad.append(f"{label}: refused ({type(e).__name__}), expected {want}")
+    return bad
+'''
+
+
+def part_foreign(ctx):
+    ns = {}
+    exec(FOREIGN_SRC, ns)
+    bad = ns["foreign_bad"]()
+    if bad:
+        ctx.violation("C07:foreign-base-dimension", "; ".join(bad[:4]) + f" ({len(bad)} cases)", FOREIGN_SRC + "\nimport sys\nb = foreign_bad()\nprint(b)\nif b:\n    print('REPRODUCED'); sys.exit(1)\n")
+    else:
+        ctx.ob("conversions with a base dimension outside the SI seven (information): refused when inequivalent, exact when equivalent", "discharged", nontrivial=False)
+
+
 def run(ctx):
     ctx.explanation = (
         "Engine L. (1) real convert_to on value (v, A) / unit (u, B) with v, u and both 8-exponent vectors z3 Reals: returns n with n*u == v exactly when "
@@ -611,3 +660,4 @@ def run(ctx):
     part_si_unit(ctx)
     part_eval(ctx)
     part_prefix_celsius(ctx)
+    part_foreign(ctx)
